@@ -156,7 +156,7 @@ def _history_query(prefix, K, backend, extra, addrs, covers=None, **kw):
 
 
 def c08_queries(tier):
-    qs = [single_query('C08'), utf8dom_query('C08', 8, 8)]
+    qs = [single_query('C08'), utf8dom_query('C08', 8, 8), tld_query('C08', 2, 8, twice=True), tld_query('C08', 3, 3)]
     N = 16 if tier == 'quick' else 40
     qs += [email_query('C08', m, N, covers=['end', 'accepted-hostname', 'accepted-literal']) for m in range(4)]
     return qs
@@ -390,7 +390,7 @@ def special_taillab_query(prefix, head, lab, **kw):
 
 
 def c07_queries(tier):
-    qs = [tldtable_query('C07')] + ([tld_query('C07', 3, 3), tld_query('C07', 2, 63)] if tier == 'quick' else [tld_query('C07', 5, 5), tld_query('C07', 3, 63)])
+    qs = [tldtable_query('C07'), tld_query('C07', 2, 8, twice=True)] + ([tld_query('C07', 3, 3), tld_query('C07', 2, 63)] if tier == 'quick' else [tld_query('C07', 5, 5), tld_query('C07', 3, 63)])
     N = 20 if tier == 'quick' else 40
     qs += [email_query('C07', m, N, covers=['end', 'tld-class', 'not-fqdn' if m < 3 else 'accepted-hostname', 'special' if m < 3 else 'end'],
                        timeout=3000) for m in range(4)]
@@ -405,7 +405,7 @@ def c09_queries(tier):
 
 
 def c11_queries(tier):
-    return [tldtable_query('C11'), tld_query('C11', 3, 3), tld_query('C11', 2, 63)]
+    return [tldtable_query('C11'), tld_query('C11', 3, 3), tld_query('C11', 2, 63), tld_query('C11', 2, 8, twice=True)]
 
 
 def utf8dom_query(prefix, N, M, backend='idn2', **kw):
@@ -416,6 +416,19 @@ def utf8dom_query(prefix, N, M, backend='idn2', **kw):
                  bounds={'input_len': N, 'converter_output_len': M, 'converter_rc': 'any int (2^32)', 'tld_check': 'both'},
                  functions=['is_utf8_domain'],
                  note='IDN converter = uninterpreted function (K1); is_ascii_domain/is_special_domain/is_tld = recording stubs', **kw)
+
+
+def utf8dom_long_queries(prefix, backend='idn2'):
+    qs = []
+    for n in (255, 256, 300):
+        q = utf8dom_query(prefix, n, 8, backend)
+        q.name = q.name.replace('-N%d-' % n, '-len%d-' % n)
+        q.defs.append('-DVF_EXACT_N')
+        q.unwind = n + 2
+        q.bounds = dict(q.bounds, input_len=n)
+        q.covers = ['end', 'accepted', 'tld-class']
+        qs.append(q)
+    return qs
 
 
 def c19_queries(tier):
@@ -453,6 +466,7 @@ def c12_queries(tier):
     qs = cross_family('C12', 2, ['all-accept', 'all-reject'], 'noquote-4modes', lens)
     qs += cross_family('C12', 3, ['accept-quoted', '822-only'], '5321-subset-822', lens, srcs=['src/is_822_local.c', 'src/is_5321_local.c'])
     qs.append(pipeline_query('C12', 9 if tier == 'quick' else 12, timeout=5000))
+    qs += [tld_query('C12', 3, 3), tld_query('C12', 2, 8, twice=True), special_query('C12', 11)]   # leaf validators: case-insensitive, stateless
     if tier != 'quick':
         q = pipeline_query('C12', 16, timeout=5000)
         q.defs.append('-DVF_EXACT_N')
@@ -465,7 +479,7 @@ def c12_queries(tier):
 
 def c10_queries(tier):
     N = 8 if tier == 'quick' else 24
-    return [utf8dom_query('C10', N, N), pipeline_query('C10', 9 if tier == 'quick' else 12, timeout=5000),
+    return utf8dom_long_queries('C10') + [utf8dom_query('C10', N, N), pipeline_query('C10', 9 if tier == 'quick' else 12, timeout=5000),
             tld_query('C10', 3, 3), special_query('C10', 11 if tier == 'quick' else 13),
             email_query('C10', 3, 16 if tier == 'quick' else 40, covers=['end', 'idn-error', 'accepted-hostname', 'tld-class'])]
 
@@ -500,7 +514,7 @@ def c17_queries(tier):
                      unwind=n + 5, covers=['end'] + (covers if n >= 5 else []), bounds={'len': n, 'ctx_bytes': 1},
                      functions=['is_6531_local (variants)', 'is_ascii_domain (variants)'], timeout=3000, weight=n)
     L = range(0, 11) if tier == 'quick' else range(0, 17)
-    LD = range(0, 17) if tier == 'quick' else list(range(0, 33)) + [63, 64, 65]
+    LD = list(range(0, 17)) + [63, 64, 65] if tier == 'quick' else list(range(0, 33)) + [63, 64, 65, 66]
     qs = []
     for n in L:
         qs.append(mk('rfc20', 20, [V0, V1, dec], ['rfc20-rejects', 'rfc20-char-inside-quotes-kept'], n))
@@ -591,6 +605,23 @@ def c14_queries(tier):
     for m in range(4):
         qs.append(mk(EMAIL_FN[m], [EMAIL_SRC[m]] + allu, D(VF_EMAIL=EMAIL_FN[m], VF_SMALL_TABLE=None, VF_NEED_CONVERTER=None)))
     qs.append(mk('eav_is_email', EMAIL_SRC + allu + ['partial/idn2/eav.c'], D(VF_API=None, VF_SMALL_TABLE=None, VF_NEED_CONVERTER=None)))
+    # the address-literal path needs >= 11 bytes: x@[........] skeleton of exactly 12 bytes
+    allu_noip = [u for u in allu if u != 'src/is_ipv4_ipv6.c'] + [('src/is_ipv4_ipv6.c', [], ['is_ipaddr', 'is_ipv4', 'is_ipv6'])]
+    for m in range(4):
+        q = mk(EMAIL_FN[m], [EMAIL_SRC[m]] + allu_noip, D(VF_EMAIL=EMAIL_FN[m], VF_SMALL_TABLE=None, VF_NEED_CONVERTER=None, VF_LIT=None, VF_STUB_IP=None))
+        q.name = 'C14-writeset-%s-literal-len12' % EMAIL_FN[m]
+        q.defs = [d if not d.startswith('-DVF_N=') else '-DVF_N=12' for d in q.defs]
+        q.unwind = 16
+        q.bounds = {'address': 'x@[........] skeleton of exactly 12 bytes, other bytes arbitrary', 'address validators': 'uninterpreted verdicts'}
+        qs.append(q)
+        if tier != 'quick':
+            q2 = mk(EMAIL_FN[m], [EMAIL_SRC[m]] + allu, D(VF_EMAIL=EMAIL_FN[m], VF_SMALL_TABLE=None, VF_NEED_CONVERTER=None, VF_LIT=None))
+            q2.name = 'C14-writeset-%s-literal-len12-real-callees' % EMAIL_FN[m]
+            q2.defs = [d if not d.startswith('-DVF_N=') else '-DVF_N=12' for d in q2.defs]
+            q2.unwind = 16
+            q2.timeout = 6000
+            q2.bounds = {'address': 'x@[........] skeleton of exactly 12 bytes, other bytes arbitrary', 'callees': 'all real'}
+            qs.append(q2)
     return qs
 
 
@@ -606,6 +637,7 @@ def c18_queries(tier):
         qs.append(h)
         qs.append(uninit_query('C18', b))
         qs.append(inductive_query('C18', b))
+        qs += utf8dom_long_queries('C18', b)
         u = utf8dom_query('C18', 8, 8, b)
         if b == 'idnkit':
             u.covers = [c for c in u.covers if c != 'fault-with-buffer']
